@@ -200,6 +200,15 @@ def _validate_chunk(build_dir, scns, path, nlines, wd, module, cfg):
         rej2 = validate_trace(one, wd, module=module, cfg=cfg)
         if rej2 is None:
             r['unconfirmed'] += 1
+            # keep the trace that was rejected once, for diagnosis (timing-dependent recordings)
+            try:
+                d = os.path.join(os.environ.get('VERIF_TMP', '/tmp'), 'verif-unconfirmed')
+                os.makedirs(d, exist_ok=True)
+                with open(os.path.join(d, '%d-%d.ndjson' % (os.getpid(), k)), 'w') as f:
+                    f.write('\n'.join(all_lines[sum(nlines[:k]):sum(nlines[:k + 1])]) + '\n')
+                    f.write(json.dumps({'e': 'Note', 'rejected_line_in_scenario': line - acc}) + '\n')
+            except OSError:
+                pass
         else:
             r['rejected'].append({'scn': scns[k], 'trace': lines2, 'line': rej2[0], 'opn': rej2[1],
                                   'first_trace_line': line - acc})
